@@ -54,7 +54,10 @@ class Module:
         self.relpath = relpath      # e.g. spatialmath/base/vectors.py
         self.src = src
         self.lines = src.split('\n')
-        self.tree = ast.parse(src, filename=path)
+        import warnings
+        with warnings.catch_warnings():
+            warnings.simplefilter('ignore')
+            self.tree = ast.parse(src, filename=path)
         self.digest = hashlib.sha256(src.encode()).hexdigest()[:16]
         self.bindings = {}          # own top-level bindings: name -> Binding (last wins)
         self.stars = []             # dotted module names star-imported
